@@ -170,7 +170,11 @@ inductive Hdr where
   | src (route : Nat)
   deriving Repr, DecidableEq, Inhabited
 
-def decide (n : Net) (r : Inst) (h : Hdr) : Option (Nat × Hdr) :=
+def Hdr.isXY : Hdr → Bool
+  | .xy .. => true
+  | _ => false
+
+def routeDecide (n : Net) (r : Inst) (h : Hdr) : Option (Nat × Hdr) :=
   match h with
   | .id d => (decideId n r d).map (·, h)
   | .xy x y p =>
@@ -201,11 +205,10 @@ def walk (n : Net) (f : Fabric) : Nat → Where → Hdr → List Step → List S
     match (routers n).find? (·.name == rn) with
     | none => (acc.reverse, .dropped rn "no such router")
     | some r =>
-      match decide n r h with
+      match routeDecide n r h with
       | none => (acc.reverse, .dropped rn "no unique decision")
       | some (p, h') =>
-        let isXY := match h with | .xy .. => true | _ => false
-        if !allowed isXY j p then (acc.reverse, .dropped rn "loopback or banned turn")
+        if !allowed h.isXY j p then (acc.reverse, .dropped rn "loopback or banned turn")
         else
           match hop n f r p with
           | none => (acc.reverse, .dropped rn "output port not connected to exactly one reader")
